@@ -6,6 +6,7 @@ import (
 	"runtime"
 	"sort"
 	"strings"
+	"time"
 
 	"github.com/prometheus/prometheus/notifier"
 
@@ -34,6 +35,14 @@ type lsAM struct {
 	got      map[int]bool
 	batches  int
 	failed   bool
+
+	// tail mode (after the Alertmanager was removed or the manager stopped): the notifier may
+	// deliver what is left from two goroutines, so requests are checked as a set with order
+	tail     bool
+	tailPos  map[int]int   // id -> position in the reference queue at the transition
+	tailSeen map[int]int64 // id -> logical time of the request that carried it
+	lastPos  int
+	lastB    *batchRec
 }
 
 type lockstep struct {
@@ -75,6 +84,10 @@ func (l *lockstep) liveAMs() []*lsAM {
 // absorb checks the requests the fake Alertmanager has logged since the last call against the
 // reference queue: each must be a non-empty prefix of it, no longer than the maximum batch size.
 func (l *lockstep) absorb(a *lsAM) {
+	if a.tail {
+		l.absorbTail(a)
+		return
+	}
 	l.w.mu.Lock()
 	bs := append([]*batchRec(nil), a.rec.batches[a.consumed:]...)
 	type snap struct {
@@ -323,8 +336,99 @@ func (l *lockstep) newAM(set int) *lsAM {
 	return a
 }
 
-// retire marks Alertmanagers as about to be removed: their fake stops gating, so that a drain
-// performed synchronously by the notifier cannot block on the harness.
+// patience is how long the harness keeps holding requests and parked loops while a removal or
+// Stop is in progress before it lets them go.  It only selects the schedule (a notifier that
+// waits for its send loops needs them released, one that does not returns at once); no verdict
+// depends on it.
+const patience = 150 * time.Millisecond
+
+func (l *lockstep) beginTail(a *lsAM) {
+	a.live = false
+	a.tail = true
+	a.tailPos = map[int]int{}
+	a.tailSeen = map[int]int64{}
+	for i, id := range a.queue {
+		a.tailPos[id] = i
+	}
+	a.lastPos = -1
+}
+
+func (l *lockstep) tailMissing(a *lsAM) []int {
+	var out []int
+	for _, id := range a.queue {
+		if _, ok := a.tailSeen[id]; !ok {
+			out = append(out, id)
+		}
+	}
+	return out
+}
+
+// absorbTail checks requests that arrive after the Alertmanager left the set or the manager was
+// stopped: only alerts still queued at that moment, each once, in queue order.
+func (l *lockstep) absorbTail(a *lsAM) {
+	l.w.mu.Lock()
+	bs := append([]*batchRec(nil), a.rec.batches[a.consumed:]...)
+	outcomes := make(map[*batchRec]int, len(bs))
+	for _, b := range bs {
+		outcomes[b] = b.outcome
+	}
+	drainers := map[int64]bool{l.w.runGID: true}
+	for g := range l.w.drainers {
+		drainers[g] = true
+	}
+	l.w.mu.Unlock()
+	sort.SliceStable(bs, func(i, j int) bool { return bs[i].seq < bs[j].seq })
+	for _, b := range bs {
+		a.consumed++
+		a.batches++
+		if a.failed {
+			continue
+		}
+		l.logf("  recv(after removal/stop) %s ids=%v", a.url, b.ids)
+		fail := func(kind, format string, args ...any) {
+			l.c.Violatef(kind, "%s\n%s", fmt.Sprintf(format, args...), l.transcript())
+			a.failed, l.dead = true, true
+		}
+		if len(b.ids) > l.maxBatch {
+			fail("batch-too-large", "%s received a request with %d alerts, max batch size is %d: %v", a.url, len(b.ids), l.maxBatch, b.ids)
+			continue
+		}
+		if len(b.ids) == 0 {
+			fail("empty-request", "%s received a request without alerts", a.url)
+			continue
+		}
+		for _, id := range b.ids {
+			p, queued := a.tailPos[id]
+			_, known := l.specs[id]
+			switch {
+			case !known:
+				fail("unknown-alert", "%s received alert id %d that was never sent", a.url, id)
+			case a.got[id]:
+				fail("duplicate-delivery", "%s received alert id %d twice", a.url, id)
+			case a.victims[id]:
+				fail("overflow-victim-not-oldest", "%s received alert id %d, which was the oldest queued alert at an overflow and must have been dropped in favour of newer ones", a.url, id)
+			case !queued:
+				fail("unexpected-alert", "%s received alert id %d which was not queued for it (relabel-dropped, or sent after it was removed / the manager stopped)", a.url, id)
+			case p < a.lastPos:
+				kind := "fifo-order"
+				if l.drain && a.lastB.gid != b.gid && drainers[a.lastB.gid] != drainers[b.gid] {
+					kind = "order-inversion-drain-vs-loop-goroutine"
+				}
+				fail(kind, "%s received alert %d (queue position %d, request by goroutine %d at t=%d) after the newer alert at queue position %d (request by goroutine %d at t=%d); queue at removal/stop: %v; draining goroutines: %v", a.url, id, p, b.gid, b.seq, a.lastPos, a.lastB.gid, a.lastB.seq, a.queue, drainers)
+			}
+			if a.failed {
+				break
+			}
+			a.lastPos, a.lastB = p, b
+			a.got[id] = true
+			a.tailSeen[id] = b.seq
+		}
+		if !a.failed {
+			l.account(a, b, outcomes[b])
+		}
+	}
+}
+
 func (l *lockstep) ungate(as []*lsAM) {
 	l.w.mu.Lock()
 	for _, a := range as {
@@ -333,18 +437,88 @@ func (l *lockstep) ungate(as []*lsAM) {
 	l.w.mu.Unlock()
 }
 
-func (l *lockstep) afterRemoval(as []*lsAM) {
+// letGo releases held requests and parked loops of Alertmanagers in tail mode without waiting.
+func (l *lockstep) letGo(as []*lsAM) {
 	for _, a := range as {
-		a.live = false
-		l.sawRemoval = true
-		l.absorb(a)
-		if a.inflight != nil {
-			l.release(a, l.pickOutcome(), false)
+		if b := a.inflight; b != nil {
+			oc := l.pickOutcome()
+			b.release <- oc
+			a.inflight = nil
+			l.account(a, b, oc)
+			l.logf("release(after removal/stop) %s %v outcome=%d", a.url, b.ids, oc)
 		}
 		if a.parked {
-			l.unpark(a)
+			a.parked = false
+			l.w.mu.Lock()
+			if ch := l.w.parked[a.gid]; ch != nil {
+				close(ch)
+				delete(l.w.parked, a.gid)
+			}
+			l.w.mu.Unlock()
+			l.logf("unpark(after removal/stop) %s", a.url)
 		}
-		if l.drain && len(a.queue) == 0 {
+	}
+}
+
+// retire runs op, which removes or stops the Alertmanagers as, making no assumption on whether
+// the notifier waits for their send loops while the harness holds a request or parks a loop.
+func (l *lockstep) retire(as []*lsAM, what string, op func() error) bool {
+	l.ungate(as)
+	for _, a := range as {
+		l.absorb(a)
+		l.beginTail(a)
+	}
+	if l.dead {
+		return false
+	}
+	done := make(chan error, 1)
+	go func() {
+		g := curGID()
+		l.w.mu.Lock()
+		l.w.drainers[g] = true
+		l.w.mu.Unlock()
+		done <- op()
+	}()
+	var err error
+	finished := false
+	select {
+	case err = <-done:
+		finished = true
+	case <-time.After(patience):
+		l.c.Count("lockstep_patience_expired", 1)
+	}
+	l.letGo(as)
+	if !finished {
+		select {
+		case err = <-done:
+		case <-time.After(watchdog):
+			l.c.Inconclusive("watchdog: %s did not complete within %s", what, watchdog)
+			l.w.mu.Lock()
+			l.w.timedOut = true
+			l.w.mu.Unlock()
+			l.dead = true
+			return false
+		}
+	}
+	if err != nil {
+		if err == errWatchdog {
+			l.dead = true
+			return false
+		}
+		panic(core.HarnessError{Msg: what + ": " + err.Error()})
+	}
+	for _, a := range as {
+		l.absorb(a)
+	}
+	return !l.dead
+}
+
+var errWatchdog = fmt.Errorf("watchdog")
+
+func (l *lockstep) afterRemoval(as []*lsAM) {
+	for _, a := range as {
+		l.sawRemoval = true
+		if l.drain && len(l.tailMissing(a)) == 0 {
 			l.c.Count("removed_am_fully_drained", 1)
 		}
 	}
@@ -371,9 +545,13 @@ func (l *lockstep) doTsets(force bool) {
 		newMembers[set] = append(newMembers[set], a.n)
 	}
 	l.logf("tsets %v (removed %d, added %d)", newMembers, len(removed), len(added))
-	l.ungate(removed)
-	if !l.w.pushTsets(tsetsFor(newMembers, len(l.cfg.sets))) {
-		l.dead = true
+	ts := tsetsFor(newMembers, len(l.cfg.sets))
+	if !l.retire(removed, "target-group update", func() error {
+		if !l.w.pushTsets(ts) {
+			return errWatchdog
+		}
+		return nil
+	}) {
 		return
 	}
 	l.members = newMembers
@@ -427,8 +605,10 @@ func (l *lockstep) doApplyConfig() {
 	}
 	sort.Slice(removed, func(i, j int) bool { return removed[i].n < removed[j].n })
 	l.logf("applyconfig %+v (sets with a changed configuration: %v)", next, changed)
-	l.ungate(removed)
-	core.Must(l.w.mgr.ApplyConfig(next.build()), "ApplyConfig")
+	newCfg := next.build()
+	if !l.retire(removed, "ApplyConfig", func() error { return l.w.mgr.ApplyConfig(newCfg) }) {
+		return
+	}
 	l.cfg = next
 	for set := range changed {
 		delete(l.members, set)
@@ -537,43 +717,68 @@ func (l *lockstep) doStop() {
 		l.sawDrainWork = true
 	}
 	l.logf("stop drain=%v queued=%d", l.drain, queued)
-	l.ungate(live)
-	close(l.w.stopCh)
-	l.w.mgr.Stop()
 	// Send after Stop must not reach anybody
 	late := alertSpec{id: l.nextID}
 	l.nextID++
 	l.specs[late.id] = late
-	l.w.send([]*notifier.Alert{mkAlert(late)}, []int{late.id})
-	if !l.w.waitFor("Manager.Run returns after Stop", func() bool {
-		select {
-		case <-l.w.runDone:
-			return true
-		default:
-			return false
+	lateAlert := mkAlert(late)
+	var runDoneSeq int64
+	if !l.retire(live, "Stop", func() error {
+		close(l.w.stopCh)
+		l.w.mgr.Stop()
+		l.w.send([]*notifier.Alert{lateAlert}, []int{late.id})
+		if !l.w.waitFor("Manager.Run returns after Stop", func() bool {
+			select {
+			case <-l.w.runDone:
+				return true
+			default:
+				return false
+			}
+		}) {
+			return errWatchdog
 		}
+		runDoneSeq = l.w.tick()
+		return nil
 	}) {
-		l.dead = true
 		return
 	}
-	for _, a := range live {
-		l.absorb(a)
-		if l.dead {
-			return
+	if l.drain {
+		// Requests still on their way get a grace period; it only decides which of two violation
+		// kinds is reported (never handed over / handed over after Run returned).
+		t0 := time.Now()
+		for {
+			pending := false
+			for _, a := range live {
+				l.absorb(a)
+				if !a.failed && len(l.tailMissing(a)) > 0 {
+					pending = true
+				}
+			}
+			if l.dead || !pending || time.Since(t0) > 20*time.Second {
+				break
+			}
+			time.Sleep(20 * time.Millisecond)
 		}
-		if l.drain && len(a.queue) > 0 {
-			l.c.Violatef("drain-incomplete", "DrainOnShutdown: Run returned but %s was never handed the queued alerts %v (attempted so far: %d requests)\n%s", a.url, a.queue, a.batches, l.transcript())
-			l.dead = true
-			return
-		}
-		a.live = false
-	}
-	for _, a := range live {
-		if a.inflight != nil {
-			l.release(a, l.pickOutcome(), false)
-		}
-		if a.parked {
-			l.unpark(a)
+		for _, a := range live {
+			if l.dead || a.failed {
+				break
+			}
+			if m := l.tailMissing(a); len(m) > 0 {
+				l.c.Violatef("drain-incomplete", "DrainOnShutdown: Run returned but %s was never handed the queued alerts %v (queue at Stop: %v)\n%s", a.url, m, a.queue, l.transcript())
+				l.dead = true
+				break
+			}
+			var lateIDs []int
+			for _, id := range a.queue {
+				if a.tailSeen[id] > runDoneSeq {
+					lateIDs = append(lateIDs, id)
+				}
+			}
+			if len(lateIDs) > 0 {
+				l.c.Violatef("drain-request-after-run-returned", "DrainOnShutdown: queued alerts %v were handed to %s only after Manager.Run had returned (t=%d)\n%s", lateIDs, a.url, runDoneSeq, l.transcript())
+				l.dead = true
+				break
+			}
 		}
 	}
 	// what still trickles in (a loop that saw work and the stop signal at once may send one more
